@@ -421,6 +421,27 @@ def main():
             for u in undecided:
                 print('UNDECIDED property=%s reason=%s' % (pid, u.replace('\n', ' ')[:600]))
             rc = 2
+    if tier == 'thorough':
+        # (c) vacuity probes: every extracted function gets the extra postcondition `false`, which must FAIL
+        try:
+            vac = []
+            total = 0
+            for unit in pc['units']:
+                out_rs, meta = asm.assemble(unit, UNITS_OUT, probe=True)
+                res = run_verus(out_rs)
+                cl = classify(unit, meta, res)
+                failed_probe = set(f['ob'] for f in cl['failed'])
+                for oid, o in meta['obligations'].items():
+                    if o['props'] == ['PROBE']:
+                        total += 1
+                        if oid not in failed_probe: vac.append(unit + '/' + oid)
+            thorough['vacuity_probes'] = {'probes': total, 'failed_as_required': total - len(vac), 'vacuous': vac}
+            if vac:
+                undecided.append('vacuity probe verified (contradictory assumptions?): ' + ', '.join(vac[:5]))
+                if rc == 0:
+                    print('UNDECIDED property=%s reason=vacuity probe verified: %s' % (pid, ', '.join(vac[:5]))); rc = 2
+        except Exception as e:
+            thorough['vacuity_probes_error'] = repr(e)
     # vacuity guard
     if n_obl == 0:
         print('UNDECIDED property=%s reason=zero obligations generated' % pid); rc = max(rc, 2)
